@@ -714,11 +714,11 @@ def run(ck: Ck) -> None:
     ]
     ok_t = ck.translate('KVSer_gen', c01_kvser.translate)
     side = ck.extra.get('translated', {}).get('KVSer_gen', {})
-    built = ok_t and ck.build(['Props/C01.vo'])
+    built = ok_t and ck.build(['Gen/KVSer_gen.vo', 'Props/C01.vo'])   # Props is generic over Gen: name Gen explicitly
     if built:
         ck.theorems('Props/C01.v')
         noraw = '(fun t => forallb (fun p => match p with PRaw _ | POther => false | _ => true end) t)'
-        ck.instance_obligations(IMPORTS, {
+        inst = ck.instance_obligations(IMPORTS, {
             'escape_table_covers_quote': 'esc_quote_ok gen_escfg',
             'escape_table_covers_backslash': 'esc_backslash_ok gen_escfg',
             'escape_table_covers_CR': 'esc_cr_ok gen_escfg',
@@ -737,6 +737,8 @@ def run(ck: Ck) -> None:
             'no_store_to_tree_in_writers': 'Nat.eqb (length gen_tree_stores) 0',
             'no_mutating_call_on_tree_in_writers': 'Nat.eqb (length gen_tree_mut_calls) 0',
         })
+        if not all(inst.values()):
+            ck.tie_broken.append('instance obligations over Gen/KVSer_gen.v: ' + ', '.join(k for k, v in inst.items() if not v))
         tie_tables(ck, side)
         corr_serialise(ck)
         corr_parse(ck)
